@@ -18,6 +18,11 @@ import (
 
 const faultFlag = "flag:io.fault"
 
+// buildFaultFlag: a function used by contract that returns an error as its last result returned a
+// non-nil one (a message builder that failed).  Kept apart from io.fault: C19 is about the
+// association and the decoder only; "completes" obligations (vc.Faulted) accept either.
+const buildFaultFlag = "flag:build.fault"
+
 func (x *Exec) getFlag(name string) *Term {
 	if x.st == nil || x.st.ghost == nil {
 		return False()
